@@ -98,6 +98,35 @@ def tlc_mc(spec, cfg, workdir, expect="pass", workers=16, timeout=900, heap="6g"
                 wall_s=round(time.time() - t0, 2), out=out)
 
 
+_BEH = re.compile(r'<<"BEH", ("(?:[^"\\]|\\.)*")>>')
+
+
+def tlc_behaviours(spec, cfg, num, depth, seed, workdir, family):
+    """run TLC in simulation mode on a Gen_* specification and convert the printed behaviours into driver cases"""
+    from replay import CONVERTERS
+    meta = os.path.join(workdir, "meta_gen_" + family)
+    cmd = _java("3g") + ["-workers", "1", "-simulate", "num=%d" % num, "-depth", str(depth), "-seed", str(seed),
+                         "-metadir", meta, "-noGenerateSpecTE", "-config", os.path.join(SPEC, cfg), os.path.join(SPEC, spec)]
+    try:
+        p = subprocess.run(cmd, cwd=workdir, capture_output=True, text=True, timeout=900)
+    except subprocess.TimeoutExpired:
+        raise Infra("TLC timeout generating behaviours from %s" % spec)
+    finally:
+        shutil.rmtree(meta, ignore_errors=True)
+    seen, cases = set(), []
+    for m in _BEH.finditer(p.stdout):
+        s = json.loads(m.group(1))       # unescape the TLA+ string literal
+        if s in seen:
+            continue
+        seen.add(s)
+        if len(seen) > 12 * num:        # TLC also prints the sibling successors it did not take: keep a bounded sample
+            break
+        cases.extend(CONVERTERS[family](json.loads(s), 50000000 + len(seen)))
+    if not cases:
+        raise Infra("no behaviours generated by %s/%s:\n%s" % (spec, cfg, (p.stdout + p.stderr)[-2000:]))
+    return cases
+
+
 _VIOL = re.compile(r'<<\s*"VIOL",\s*(-?\d+),\s*(\d+),\s*\{([^}]*)\}\s*>>', re.S)
 _DONE = re.compile(r'<<\s*"DONE",\s*(\d+),\s*(\d+)\s*>>')
 
@@ -238,8 +267,11 @@ class Stage:
     trace: (spec, cfg)
     """
 
-    def __init__(self, family, mc, parts, trace, nontrivial=None, race=False, driver_env=None, gen_timeout=3600):
+    def __init__(self, family, mc, parts, trace, nontrivial=None, race=False, driver_env=None, gen_timeout=3600,
+                 behaviours=None):
         self.family, self.mc, self.parts, self.trace = family, mc, parts, trace
+        # behaviours: {tier: [(Gen spec, cfg, num walks, depth)]} - TLC -simulate output replayed on the real code
+        self.behaviours = behaviours or {}
         self.nontrivial = nontrivial
         self.race = race
         self.driver_env = driver_env
@@ -300,6 +332,18 @@ def run_check(prop, stages, tier, seed, assumptions, rule, replay=None):
 
         with cf.ThreadPoolExecutor(max_workers=8) as ex:
             list(ex.map(gen, jobs))
+        # ---- 2b. spec -> code: behaviours generated by TLC are stepped through the real code
+        for si, st in enumerate(stages):
+            for bi, (spec, cfg, num, depth) in enumerate(st.behaviours.get(tier, [])):
+                cases = tlc_behaviours(spec, cfg, num, depth, seed, work, st.family)
+                base = os.path.join(work, "%s_beh%d" % (st.family, bi))
+                with open(base + ".cases.ndjson", "w") as f:
+                    for c in cases:
+                        f.write(json.dumps(c) + "\n")
+                run_driver(drivers[st.race], [st.family, "run", "-cases", base + ".cases.ndjson", "-out", base + ".trace.ndjson"])
+                jobs.append((si, st, "beh", bi, 1, base + ".cases.ndjson", base + ".trace.ndjson"))
+                cov["behaviours_replayed"] = cov.get("behaviours_replayed", 0) + len(cases)
+                log("[gen] %s/%s: %d TLC behaviours replayed on the real code" % (spec, cfg, len(cases)))
         # ---- 3. TLC judges every recorded step
         def val(job):
             si, st, part, i, shards, cases, trace = job
